@@ -145,7 +145,7 @@ func C15(r *core.Run) int {
 			for g := range ch {
 				p := g.P
 				p.Out += "-cli"
-				out, err := core.RunCmd(r.Scratch, 2*time.Minute, nil, cli, p.CLIArgs()...)
+				out, err := core.RunCmd(r.Scratch, 30*time.Second, nil, cli, p.CLIArgs()...)
 				mu.Lock()
 				cliRuns++
 				mu.Unlock()
@@ -153,7 +153,7 @@ func C15(r *core.Run) int {
 				isTimeout := err != nil && strings.Contains(err.Error(), "timeout")
 				switch {
 				case isTimeout:
-					r.Report(core.Violation{Case: g.P.Case.ID, Class: "crash-or-hang", Message: "CLI did not terminate within 2 minutes", Spec: string(g.P.Case.SpecBytes())})
+					r.Report(core.Violation{Case: g.P.Case.ID, Class: "crash-or-hang", Message: "CLI did not terminate within 30 seconds", Spec: string(g.P.Case.SpecBytes())})
 				case hasPanic:
 					if g.Status != "panic" && g.Status != "fatal" {
 						r.Report(core.Violation{Case: g.P.Case.ID, Class: "panic", Message: "CLI: " + core.Trunc(firstLine(out), 160), Observed: core.Trunc(out, 3000), Spec: string(g.P.Case.SpecBytes())})
@@ -168,7 +168,16 @@ func C15(r *core.Run) int {
 			}
 		}()
 	}
+	hangs := 0
 	for _, g := range recheck {
+		if g.Status == "fatal" && len(g.Msgs) > 0 && strings.Contains(g.Msgs[0], "did not finish within") {
+			// already a violation (the in-process run did not terminate): the CLI
+			// is tried on a few of them only, each costs its full deadline
+			hangs++
+			if hangs > 3 {
+				continue
+			}
+		}
 		ch <- g
 	}
 	close(ch)
